@@ -144,7 +144,7 @@ Menu(m) ==
             [] OTHER -> {From("p.b", "x"), From("p.a", "x")} )
     [] Family = "attrall" ->       \* __all__ extended with another module's __all__ through an ATTRIBUTE access (`__all__ += a.__all__`)
         ( CASE m = "p.a" -> {Def("x"), All(<<"x">>)}
-            [] m = "p.b" -> {From("p", "a"), ImportAs("p.a", "a"), All(<<>>), AugInc("@a"), AllInc(<<>>, "@a")}
+            [] m = "p.b" -> {ImportAs("p.a", "a"), All(<<>>), AugInc("@a"), AllInc(<<>>, "@a")} \cup (IF Scale = "quick" THEN {} ELSE {From("p", "a")})
             [] OTHER -> {All(<<>>)} )
     [] Family = "topstar" ->
         ( CASE m = "p.a" -> {Def("x"), Def("y"), All(<<"x">>)}
